@@ -1,7 +1,7 @@
 (* C10 -- property theorems only. *)
 From Coq Require Import ZArith List Bool.
 From Coq Require Import Sorted.
-From WNTRV Require Import Lib.Sched C10.Proofs C10.Invariant C10.Times C04.Window C04.AtTimeSet.
+From WNTRV Require Import Lib.Sched C10.Proofs C10.Invariant C10.Times C04.Window C04.AtTimeSet C04.AtTimeAll C04.Mixed.
 Import ListNotations.
 Local Open Scope Z_scope.
 
@@ -64,6 +64,33 @@ Proof.
   intros cs hs rs sc D st0 H1 H2 H3 H4 D1 D' f1 tr1 s1 f2 tr2 s2 H5 H6.
   exact (at_time_set_survives_pause cs hs rs sc D st0 H1 H2 H3 H4 D1 D' f1 tr1 s1 f2 tr2 s2 H5 H6).
 Qed.
+(* ... and with coinciding instants allowed (is_W: latest instant, then priority, then registration; see C04) *)
+Theorem C10_all_time_controls_survive_pause : forall cs hs rs sc D st0, 0 < rs -> 0 < hs -> (forall x, In x cs -> 0 < x_thr x) -> StronglySorted R_id cs ->
+  forall D1 D' f1 tr1 s1 f2 tr2 s2,
+  steps f1 (ga cs hs rs sc D st0) D1 (init_state (ga cs hs rs sc D st0)) = Some (tr1, s1) ->
+  steps f2 (ga cs hs rs sc D st0) D' (restart_state (ga cs hs rs sc D st0) s1) = Some (tr2, s2) ->
+  (forall e, In e (tr1 ++ tr2) -> is_W cs st0 (fst e) (snd e)) /\ (forall e, In e tr2 -> s_prev s1 < fst e) /\
+  (forall x, In x cs -> s_prev s1 < x_thr x <= s_prev s2 ->
+     In (x_thr x) (map fst tr2) \/ exists st, (st = s_stA s1 \/ In st (map snd tr2)) /\ is_W cs st0 (x_thr x) st).
+Proof.
+  intros cs hs rs sc D st0 H1 H2 H3 H4 D1 D' f1 tr1 s1 f2 tr2 s2 H5 H6.
+  exact (at_time_all_survives_pause cs hs rs sc D st0 H1 H2 H3 H4 D1 D' f1 tr1 s1 f2 tr2 s2 H5 H6).
+Qed.
+(* simple controls AND rules: the new simulator object recomputes EXACTLY the rule index of the paused one (restart_state = identity on every
+   state a run can be paused in), so the continued run is the continuation of the uninterrupted one; every step of both parts and every
+   time in between shows the specified statuses (is_M, see C04) *)
+Theorem C10_controls_and_rules_survive_pause : forall cs rl hs rs sc D st0, 0 < rs -> 0 < hs -> (forall x, In x cs -> 0 < x_thr x) ->
+  (forall x, In x rl -> 0 < x_thr x) -> StronglySorted R_id cs -> StronglySorted R_id rl ->
+  forall D1 D' f1 tr1 s1 f2 tr2 s2,
+  steps f1 (gm cs rl hs rs sc D st0) D1 (init_state (gm cs rl hs rs sc D st0)) = Some (tr1, s1) ->
+  steps f2 (gm cs rl hs rs sc D st0) D' (restart_state (gm cs rl hs rs sc D st0) s1) = Some (tr2, s2) ->
+  restart_state (gm cs rl hs rs sc D st0) s1 = s1 /\
+  (forall e, In e (tr1 ++ tr2) -> is_M cs rl rs st0 (fst e) (snd e)) /\ (forall e, In e tr2 -> s_prev s1 < fst e) /\
+  (forall T', s_prev s1 <= T' <= s_prev s2 -> is_M cs rl rs st0 T' (status_at (s_stA s1) tr2 T')).
+Proof.
+  intros cs rl hs rs sc D st0 H1 H2 H3 H4 H5 H6 D1 D' f1 tr1 s1 f2 tr2 s2 H7 H8.
+  exact (mixed_survives_pause cs rl hs rs sc D st0 H1 H2 H3 H4 H5 H6 D1 D' f1 tr1 s1 f2 tr2 s2 H7 H8).
+Qed.
 Theorem C10_fuel_irrelevant : forall g D f k s r, steps f g D s = Some r -> steps (f + k) g D s = Some r.
 Proof. exact steps_fuel_mono. Qed.
 Print Assumptions C10_pause_continue.
@@ -72,4 +99,6 @@ Print Assumptions C10_rule_index_invariant.
 Print Assumptions C10_times_strictly_increasing.
 Print Assumptions C10_window_survives_pause.
 Print Assumptions C10_control_set_survives_pause.
+Print Assumptions C10_all_time_controls_survive_pause.
+Print Assumptions C10_controls_and_rules_survive_pause.
 Print Assumptions C10_restart_equiv_sim_time_controls.
